@@ -160,6 +160,11 @@ class Gen:
                 have_strain = True
                 strata = ["a", "b", "c"][: r.randint(1, 3)]
                 scomps = sorted(set(inf) | infection_dests, key=comps.index)
+                spare = [c_ for c_ in inf if c_ not in infection_dests]
+                if want.get("partial_strain") and len(set(inf)) >= 2 and spare and r.random() < want["partial_strain"]:
+                    # an infectious compartment that the strain stratification leaves whole (a carrier state): it
+                    # belongs to no strain
+                    scomps = [c_ for c_ in scomps if c_ != spare[-1]]
             else:
                 cands = [n for n in STRAT_NAMES[1:] if n not in used]
                 if not cands:
